@@ -59,10 +59,19 @@ class Slotted:
     b = Signal(EB)
 
 
+class PrivBase:
+    __changed = Signal(EA)  # name-mangled: the attribute is `_PrivBase__changed`
+
+
+class PrivSub(PrivBase):
+    __changed = Signal(EB)  # another attribute (`_PrivSub__changed`) with the same source-level name
+
+
 KINDS = [("plain class", Base, ("a", "b")), ("subclass inheriting two signals and adding one", Sub, ("a", "b", "c")),
          ("frozen dataclass, the two instances compare equal", Value, ("a", "b")), ("class whose instances are falsy (__len__ == 0)", Sized, ("a", "b")),
-         ("__slots__ class", Slotted, ("a", "b"))]
-EVCLS = {"a": EA, "b": EB, "c": EC}
+         ("__slots__ class", Slotted, ("a", "b")),
+         ("class and subclass each declaring a private (name-mangled) signal `__changed`", PrivSub, ("_PrivBase__changed", "_PrivSub__changed"))]
+EVCLS = {"a": EA, "b": EB, "c": EC, "_PrivBase__changed": EA, "_PrivSub__changed": EB}
 
 
 def params(tier):
@@ -146,13 +155,13 @@ def fn(a, tier):
                 ev = EVCLS[k[1]]()
                 sent[k] = ev
                 bound[k].dispatch(ev)
-                for wrong in (EB() if k[1] != "b" else EA(), Event()):  # a sibling class, and the BASE class of all events
+                for wrong in (EB() if EVCLS[k[1]] is not EB else EA(), Event()):  # a sibling class, and the BASE class of all events
                     try:
                         bound[k].dispatch(wrong)
                         errors.append((f"wrong-class-accepted:{type(wrong).__name__}", k))
                     except TypeError:
                         pass
-                if k[1] == "a":
+                if EVCLS[k[1]] is EA:
                     sub = EA2()
                     try:
                         bound[k].dispatch(sub)
@@ -191,6 +200,10 @@ def fn(a, tier):
         return FAIL(f"raised:{type(exc).__name__}:{name}", repr(exc), summary)
     if errors:
         return FAIL(f"{errors[0][0]}:{name}:clone={clone}", errors[:3], summary)
+    # "always yields the same bound signal": also after every listener of the channel has come and gone
+    for k in keys:
+        if getattr(insts[k[0]], k[1]) is not bound[k]:
+            return FAIL(f"identity:not-stable-after-the-listeners-left:{name}", k, summary)
     # binding never keeps the owner alive
     import symsched
 
